@@ -127,6 +127,32 @@ class Evaluator:
                     shp = tuple(v.shape) if v.kind == "ndarray" else ((v.length,) if v.kind in ("list", "tuple") and v.length is not None else ())
                     return shp if fn.endswith("shape") else len(shp)
                 raise Unknown(fn)
+            # element-wise numpy comparisons of two shapes (tuples of ints): numpy BROADCASTS them - (3,) against (3, 3) gives
+            # [True, True] - which is exactly how such a guard differs from tuple equality
+            if fn.split(".")[-1] in ("equal", "not_equal") and fn.split(".")[0] in ("np", "numpy") and len(n.args) == 2 and not n.keywords:
+                a, b = self.ev(n.args[0]), self.ev(n.args[1])
+                norm_ = lambda v: (v,) if isinstance(v, int) and not isinstance(v, bool) else v
+                a, b = norm_(a), norm_(b)
+                if isinstance(a, tuple) and isinstance(b, tuple) and all(isinstance(x, int) for x in a + b):
+                    if len(a) == len(b) or len(a) == 1 or len(b) == 1:
+                        m_ = max(len(a), len(b))
+                        aa = a * m_ if len(a) == 1 and m_ > 1 else a
+                        bb = b * m_ if len(b) == 1 and m_ > 1 else b
+                        return ("bools", tuple((x == y) if fn.endswith("not_equal") is False else (x != y) for x, y in zip(aa, bb)))
+                    raise Raises("ValueError")
+                raise Unknown(fn)
+            if fn in ("np.all", "numpy.all", "all", "np.any", "numpy.any", "any") and len(n.args) == 1 and not n.keywords:
+                v = self.ev(n.args[0])
+                if isinstance(v, tuple) and len(v) == 2 and v[0] == "bools":
+                    return all(v[1]) if fn.endswith("all") else any(v[1])
+                if isinstance(v, bool):
+                    return v
+                raise Unknown(fn)
+            if fn in ("np.array_equal", "numpy.array_equal") and len(n.args) == 2 and not n.keywords:
+                a, b = self.ev(n.args[0]), self.ev(n.args[1])
+                if isinstance(a, tuple) and isinstance(b, tuple) and all(isinstance(x, int) for x in a + b):
+                    return a == b
+                raise Unknown(fn)
             raise Unknown(fn)
         if isinstance(n, ast.Attribute):
             # T.btype.shape
@@ -194,6 +220,11 @@ class Evaluator:
     def truth(v):
         if isinstance(v, Desc):
             raise Unknown("truthiness of descriptor")
+        if isinstance(v, tuple) and len(v) == 2 and v[0] == "bools":
+            # the truth value of an array of comparisons: its only element, or numpy's "ambiguous" ValueError
+            if len(v[1]) == 1:
+                return v[1][0]
+            raise Raises("ValueError")
         return bool(v)
 
 
